@@ -16,7 +16,7 @@ NA = {
 }
 CHECKS = {
  "C01": dict(cat="exploration", ref="DESIGN.md 3 (C01)", technique="seeded storage-configuration simulation (fault-free arm) vs reference writer/loader",
-   text="seeded exploration of the storage-layout configuration space: every run writes one generated FCS file (version x datatype x byte-order spelling x widths x range class x HEADER/TEXT-only offsets x end convention x segment order x padding x 0..40 events; rarely 10..100 parameters, a 10 MB pad, or a 1-17 MiB DATA segment) to the simulated disk and loads it through the real reader by path or through an open file object; strict equality with writer ground truth and with an independent reference loader; refused layouts must raise; 30% of runs continue with a reload history (modify the sample in memory, boot again on the same inode). Evidence bounded by the run count; not a proof.",
+   text="seeded exploration of the storage-layout configuration space: every run writes one generated FCS file (version x datatype x byte-order spelling x widths x range class x HEADER/TEXT-only offsets x end convention x segment order x padding x 0..40 events; rarely 10..100 parameters, a 10 MB pad, or a 1-17 MiB DATA segment) to the simulated disk and loads it through the real reader by path or through an open file object; strict equality with writer ground truth and with an independent reference loader; refused layouts must raise; 30% of runs continue with a storage history (overwrite the file in place and re-read the earlier sample; modify the sample in memory, boot again on the same inode). Evidence bounded by the run count; not a proof.",
    note="trusted: models/fcs_ref.py (independent encoder/decoder), NumPy; NaN payloads not generated; non-power-of-two ranges generated below 2^52 (the reader parses $PnR through a float); large files skip the pure-python reference decoding"),
  "C16": dict(cat="fault_enumeration", ref="DESIGN.md 3 (C16)", technique="deterministic simulation: crash-during-copy at every byte offset + structural field faults on a simulated disk, oracle = ground truth or reference loader",
    text="per generated file, every crash point of an interrupted copy (exhaustive 0..len) and every listed structural field x {smaller (incl. -2), larger (incl. +2), +1, -1}, alone and composed (up to two field faults plus a truncation), over seeded layouts incl. TEXT-like segments last in file, plus a rare arm that interrupts the copy of a 1-17 MiB file at a handful of points; outcome must be an exception, the intact content, or the reference reading of self-consistent bytes.",
@@ -25,22 +25,22 @@ CHECKS = {
    text="all strings over {delimiter,a,b} up to length 9 (quick) / 14 (thorough) for primary and supplemental segments, plus seeded dictionaries over a rich alphabet and every printable delimiter, intact and with 1-3 stored-byte faults, read through read_fcs_text_segment and (inside generated files on the simulated disk) through FCSFile; outcome judged against a three-valued reference tokenizer.",
    note="trusted: models/fcs_ref.tokenize; three don't-care classes (leading-delimiter-run-only segment, warned ending with >= 4 trailing delimiters, duplicated keyword)"),
  "C17": dict(cat="fault_enumeration", ref="DESIGN.md 3 (C17)", technique="deterministic simulation of stored-field faults (absent / well-formed / ill-formed optional keywords) vs reference metadata derivation",
-   text="presence x well-formed-format x ill-formedness lattice of every optional keyword named by the property, time channel absent / any case / duplicated, all versions and data types; file written to the simulated disk, loaded through FCSData, every attribute and accessor compared with an independent derivation; loading and accessors must not raise.",
+   text="presence x well-formed-format x ill-formedness lattice of every optional keyword named by the property, time channel absent / any case / duplicated, all versions and data types; file written to the simulated disk, loaded through FCSData, every attribute and accessor compared with an independent derivation, the time attributes once more after the duration was computed (on the object and on views / copies made afterwards); loading and accessors must not raise.",
    note="trusted: models/meta_ref.py; second fractions compared to +-1 us; ambiguous combinations accept both readings (listed in evidence assumptions)"),
  "C20": dict(cat="exploration", ref="DESIGN.md 3 (C20)", technique="deterministic simulation of crash/restart with only serialised state surviving (pickle bytes on the simulated disk), lineage refinement + storage history for file equality",
    text="two lineages from one generated file receive the same seeded analysis ops (<= 3 of slice channels/events, to RFI, to MEF, four gates); one lineage is restarted at seeded points by copy / copy.copy / deepcopy / view / pickle protocols 0..5 through the simulated disk (a fraction restored in a fresh interpreter); fingerprints (values, dtype kind+width, fourteen state fields, acquisition_time) compared after every step, clones mutated to prove independence; load/load/rewrite/load history for FCSFile == / != / hash.",
    note="trusted: models/fingerprint.py; dtype compared by kind and width only (NumPy normalises byte order on pickling); NaN-free float files for the equality clause"),
  "C04": dict(cat="exploration", ref="DESIGN.md 3 (C04)", technique="seeded operation histories over aliased handles vs NumPy reference model (bounded exhaustive key walks + random chains)",
-   text="every canonical (row key, column key) pair of the grammar on small loaded samples exhaustively (and, thorough, every pair of successive keys), plus seeded chains of up to 4 getitem/setitem ops over a pool of aliased handles; values, dtype and the seven per-channel attributes of every live handle compared with a NumPy reference model after every op; invalid keys must be refused, other forms refused or aligned.",
+   text="every canonical (row key, column key) pair of the grammar on small loaded samples exhaustively (and, thorough, every pair of successive keys), plus seeded chains of up to 4 getitem/setitem ops over a pool of aliased handles (some re-using the key object of an earlier expression); values, dtype and the seven per-channel attributes of every live handle compared with a NumPy reference model after every op; invalid keys must be refused, other forms refused or aligned.",
    note="trusted: models/index_ref.py and NumPy's own indexing; no fault dimension; two-part keys on 1-D samples and re-indexed row samples are checked for values only"),
  "C13": dict(cat="exploration", ref="DESIGN.md 3 (C13)", technique="seeded operation histories with bit-exact state fingerprints, cross-mutation of results and inputs, and never-used-twin comparison (history independence)",
-   text="histories of 2..8 calls over the public surface of io, transform, gate, stats, mef, plot and FCSData (enumerated at run time) on a pool of loaded / converted / transformed / sliced samples and plain arrays, with caller-side in-place edits as history steps; every argument (incl. caller-owned lists and dicts and their element identities) and every pool object fingerprinted bit-exactly before and after each call, also when it raises; sample results cross-mutated with inputs; every answer compared with a freshly built twin (edits replayed); exhaustive ordered-pair and query-edit-query walks over 86 canonical calls.",
+   text="histories of 2..8 calls over the public surface of io, transform, gate, stats, mef, plot and FCSData (enumerated at run time) on a pool of loaded / converted / transformed / sliced samples and plain arrays, with caller-side in-place edits as history steps; every argument (incl. caller-owned lists and dicts and their element identities) and every pool object fingerprinted bit-exactly before and after each call, also when it raises; sample results cross-mutated with inputs; every answer compared with a freshly built twin (edits replayed); exhaustive ordered-pair and query-edit-query walks over 88 canonical calls.",
    note="trusted: models/fingerprint.py; buffer file position not fingerprinted; lists handed out by accessors may alias stored state (the property speaks about samples)"),
  "C11": dict(cat="fault_enumeration", ref="DESIGN.md 3 (C11)", technique="deterministic simulation of fault sequences over a batch (row faults incl. ENOENT injected at the open seam), healthy rows refined against their single-row runs",
-   text="generated experiments over synthetic FCS files on the simulated disk; each bead / cell-sample row carries no fault or one documented fault kind (file not found in six storage spellings incl. ENOENT/EACCES injected at the open seam, < 400 events, gate fraction out of range, unrecognised units, calibration unavailable, no standard curve, other instrument / amplification / voltage, unequal MEF counts) at seeded positions and orders; no exception may escape, keys follow the table, faulted rows hold an error and get an ERROR: note with empty statistics, every other row is bit-identical to its single-row run; a second pass re-processes the previous output table after a file disappeared; thorough enumerates every ordered two-row fault assignment.",
+   text="generated experiments over synthetic FCS files on the simulated disk; each bead / cell-sample row carries no fault or one documented fault kind (file not found in six storage spellings incl. ENOENT/EACCES injected at the open seam, < 400 events, gate fraction out of range, unrecognised units, calibration unavailable, no standard curve, other instrument / amplification / voltage, unequal MEF counts) at seeded positions and orders; no exception may escape, keys follow the table, faulted rows hold an error and get an ERROR: note with empty statistics, every other row is bit-identical to its single-row run (executed in its own child process forked before the batch, on rebuilt tables and copies of the calibration functions); a second pass re-processes the previous output table after a file disappeared; thorough enumerates every ordered two-row fault assignment.",
    note="trusted: models/fingerprint.py; bead clustering is the real GMM with the global RNG re-seeded per row by the simulator (~70%) or a label-oracle stub (~30%); rows that fail for an undocumented reason are only required to fail identically alone"),
  "C10": dict(cat="exploration", ref="DESIGN.md 3 (C10)", technique="seeded end-to-end refinement of the batch orchestration against an executable hand composition of the documented steps (fault-free arm of the batch simulator)",
-   text="generated fault-free experiments (units in all documented spellings, integer and float data, 0..2 bead rows); every returned sample bit-identical to the hand composition of the documented steps with the calibration functions the real bead processing returned; every statistics column equals FlowCal.stats on that sample (geometric ones on positive events, note iff needed); every histogram row equals np.histogram over the library bin edges and sums to the events inside them.",
+   text="generated experiments (three in four fault-free, one in four with documented row faults next to the compared rows; units in all documented spellings, integer and float data, 0..2 bead rows); every returned sample bit-identical to the hand composition of the documented steps, computed per row in a child process forked before the workflow runs, with copies of the calibration functions the real bead processing returned; every statistics column equals FlowCal.stats on that sample (geometric ones on positive events, note iff needed); every histogram row equals np.histogram over the library bin edges and sums to the events inside them.",
    note="trusted: models/pipeline_ref.py (public library calls only); either histogram scale accepted for letter-case variants of 'channel'; calibration accuracy itself (C02) not claimed"),
  "C15": dict(cat="exploration", ref="DESIGN.md 3 (C15)", technique="deterministic end-to-end simulation of excel_ui.run over simulated storage, clock and RNG with an I/O-history oracle and bounded liveness; seeded write/read round trips",
    text="generated well-formed workbooks (written with openpyxl) and FCS files on the simulated disk, processed by the real excel_ui.run under every option tuple (plots, histogram sheet, explicit/default output, absolute/relative input path, input names with several dots, pre-existing plot folders, a second run) with the open seams, the simulated clock, the owned RNG and a recorded savefig; run must return within the liveness bound, write exactly the documented files (valid PNG/XLSX), leave inputs untouched, preserve every input row and column in order, add the documented result columns, and stamp the About sheet with what the simulated clock returned; plus seeded tables through write_workbook -> read_table; thorough also runs the shipped example workbook.",
